@@ -635,6 +635,7 @@ class Later:
 def run(ctx):
     ctx.level = "model_checking"
     d = common.scratch("lcbv-c09-")
+    R.set_tier(ctx)             # watchdog seconds per library call and the check-wide budget of watchdog deaths
     F = Fails(ctx)
     # every configuration is built with key validation on and off; the second configuration's pair runs under ASan
     rng = random.Random(ctx.seed * 7919 + 13)
